@@ -21,7 +21,8 @@ ASSUMPTIONS = ["an Ingress does not list the same host twice (validateIngressSpe
 LEVEL_TEXT = ("Lean 4 theorems over the arbitration model (Nic/Model/Arb.lean, a step-for-step twin of configuration.go): beats is a strict total "
               "order on distinct UIDs; the running-holder fold returns the champion; buildHosts assigns every host to Spec.owner (the claimant that "
               "beats all others) for any object set; every operation re-establishes hosts = build(objects), hence the owner map after any history "
-              "depends only on the final object set (history_independent).")
+              "depends only on the final object set (history_independent)."
+              ' Source tie: chooseObjectMetaWinner, Wins, GetObjectMeta (dynamic dispatch), getResourceKey(WithKind) and isMaster/isMinion are translated from /repo on every run (tools/gofn -> Nic/Gen/Fns.lean) and proved equal to the model (TieArb.winner_is_beats, TieRes.*_wins_tie, ...); the strict-total-order facts are also proved directly about the translated comparison (winner_asymm / winner_total / winner_trans).')
 LEVEL_NOTE = ("Assurance = weaker of (kernel-checked theorems about the model, differential correspondence model vs real Configuration on generated "
               "histories, every op). Validator verdicts and class predicate are parameters.")
 TECHNIQUE = "Lean 4 proof (fold-is-champion, invariant over all histories) + model/implementation correspondence on event histories"
